@@ -14,6 +14,7 @@ import (
 	"os"
 	"os/exec"
 	"path/filepath"
+	"runtime/pprof"
 	"sort"
 	"strings"
 	"time"
@@ -285,13 +286,23 @@ func observe(sc *Scenario, ord Order, st *obsStats) (out string) {
 // between executions); otherwise every execution gets a fresh copy.
 func observeArgv(sc *Scenario, ord Order, st *obsStats, shared []string) (out string) {
 	pol := simrt.Policy{Kind: "uniform", MapMode: ord.Base}
+	// goroutines the code under test may start are scheduled differently from execution to execution:
+	// uniformly at every step, or with the running goroutine usually keeping the processor (with many
+	// preemption points - the comparisons of a sort - a uniform scheduler lets the other goroutine
+	// overtake almost surely, which would make a race look deterministic)
+	switch {
+	case ord.Base == "desc" || (ord.Base == "shuffle" && ord.Seed%3 == 1):
+		pol.Kind, pol.Sticky = "sticky", 0.97
+	case ord.Base == "rot" || (ord.Base == "shuffle" && ord.Seed%3 == 2):
+		pol.Kind, pol.Sticky = "sticky", 0.8
+	}
 	ch := simrt.NewRandomChooser(ord.Seed, pol, false)
 	base := ord.Base
 	if base == "shuffle" {
 		base = "asc"
 	}
 	var b strings.Builder
-	sim := simrt.Run(simrt.Config{Chooser: ch, MapBase: base}, func() {
+	sim := simrt.Run(simrt.Config{Chooser: ch, MapBase: base, KeepGlobals: true}, func() {
 		defer func() {
 			if p := recover(); p != nil {
 				fmt.Fprintf(&b, "PANIC %v\n", p)
@@ -1077,11 +1088,18 @@ func main() {
 	_ = flag.String("known", "", "known findings file (no matcher applies to C20 at present)")
 	hashOut := flag.String("hashes", "", "")
 	merge := flag.String("merge", "", "")
+	prof := flag.String("cpuprofile", "", "write a CPU profile (development)")
 	dump := flag.Int64("dump", -1, "print scenario and its observation")
 	dethash := flag.Int("dethash", 0, "determinism mode")
 	obsIdx := flag.Int64("obs", -1, "print the hash of the base observation of this scenario index (fresh-process reference) and exit")
 	realRuns := flag.Int("realruns", 0, "real-runtime mode (built with -tags passthrough against the uninstrumented tree): native map order, 9 executions per scenario")
 	flag.Parse()
+	if *prof != "" {
+		if f, err := os.Create(*prof); err == nil {
+			pprof.StartCPUProfile(f)
+			defer pprof.StopCPUProfile()
+		}
+	}
 	if *merge != "" {
 		mergeHashes(*merge)
 		return
@@ -1176,9 +1194,9 @@ func main() {
 		}
 		base := observe(sc, Order{Base: "asc"}, nil)
 		probeScenario(sc, base, w.Probes)
-		// Hidden state across definitions: every 16th scenario is also observed in a fresh process;
+		// Hidden state across definitions: every 8th scenario is also observed in a fresh process;
 		// the observation there must equal the one made here after thousands of other executions.
-		if d == nil && !simrt.RealRuntime && i%16 == 15 {
+		if d == nil && !simrt.RealRuntime && i%8 == 7 {
 			w.Probes["fresh_process_cross_checks"]++
 			if ref, ok := freshObservation(*seed, idx); ok && ref != fmt.Sprintf("%016x", strHash(base)) {
 				d = &disagreement{Order{Base: "asc"}, Order{Base: "asc"}, "the observation made in this process (after " + fmt.Sprint(i) + " earlier scenarios) differs from the observation of the same scenario in a fresh process", "process-state"}
